@@ -220,7 +220,15 @@ class Run:
         if len(r) < 3 or not r[2].startswith("FAIL"):
             return
         c.cov["oracle_failures"] += 1
+        parts = []
         for part in r[2][5:].split(" ;; "):
+            m = re.match(r"(encoded-value-rejected explained-by=)([a-z+]+)( .*)$", part, re.S)
+            if m and "+" in m.group(2):
+                # several recorded mechanisms are needed together: each must be a known finding
+                parts += [m.group(1) + name + m.group(3) for name in m.group(2).split("+")]
+            else:
+                parts.append(part)
+        for part in parts:
             text = r[0] + "\tFAIL " + part
             cls = re.sub(r"case=\S+|at=\S+|msg=.*|name=\S+|claimed-by=\S+|value=\S+|pkg=\S+|schema \"[^\"]*\"|\[[a-z0-9]+\] ", "", "FAIL " + part)
             cls = re.sub(r"[0-9]+", "N", cls)[:160]
